@@ -2,7 +2,7 @@
 # tools/ingest_seed3.sh <PID> : copy the two changes of round 3 from /tmp/seed${R:-3}_<PID>/out/{A,B} to seeded/<PID>_{e,f},
 # confirm each in a scratch worktree (suite passes, demo fails with / passes without), then remove the seeder's worktree.
 P="$1"; cd "$(dirname "$0")/.." || exit 2
-PAIRS="A:e B:f"; [ "${R:-3}" = "4" ] && PAIRS="A:g B:h"; [ "${R:-3}" = "5" ] && PAIRS="A:i B:j"; [ "${R:-3}" = "6" ] && PAIRS="A:k B:l"
+PAIRS="A:e B:f"; [ "${R:-3}" = "4" ] && PAIRS="A:g B:h"; [ "${R:-3}" = "5" ] && PAIRS="A:i B:j"; [ "${R:-3}" = "6" ] && PAIRS="A:k B:l"; [ "${R:-3}" = "7" ] && PAIRS="A:m B:n"
 for pair in $PAIRS; do
   X=${pair%%:*}; s=${pair##*:}
   src=/tmp/seed${R:-3}_$P/out/$X
